@@ -36,6 +36,10 @@ THEOREMS = [
     "Ural.Props.C13.pslSplit_spec",
     "Ural.Props.C13.pslSplitT_eq_split",
     "Ural.Props.C13.splitLaw_psl",
+    "Ural.Props.C13.splitRejoins_psl",
+    "Ural.Props.C13.under_of_stems_prefix_psl",
+    "Ural.Props.C13.under_of_stems_prefix_psl_string",
+    "Ural.Props.C13.converse_former_witness",
     "Ural.Props.C13.sameSuffixSplit_of_outside",
     "Ural.Props.C13.stems_prefix_of_under_sub",
     "Ural.Props.C13.stems_prefix_of_under_psl",
@@ -122,7 +126,7 @@ TRUSTED = [
     for t in B.TRUSTED
 ]
 ASSUMPTIONS = [
-    "C08 clause used as hypothesis (SplitLaw) by the theorems with an abstract split_suffix: its parts re-join to the lower-cased host; checked on every URL of this run. The *_psl theorems assume nothing about split_suffix (it is the model of suffix_trie.py on the regenerated list: splitLaw_psl, sameSuffixSplit_of_outside, split_nobar_psl); what ties them to the code is the per-run obligation that the real split_suffix answers like that model on every host of the public-suffix-list families and of the corpus (op lru_pairs_psl, a disagreement is a broken correspondence)",
+    "C08 clause used as hypothesis (SplitLaw: the host the suffix-aware stems spell — the two parts of split_suffix, a lone leading dot, the trailing dots — is the lower-cased host; follows from C08's split_rejoin 'the two parts re-join to the lower-cased hostname without its trailing dots' on every netloc of the grammar: C12.splitRejoins_of_c08) by the theorems with an abstract split_suffix; C08's clause is checked on every URL of this run, hosts with trailing dots / a leading dot included. The *_psl theorems assume nothing about split_suffix (it is the model of suffix_trie.py on the regenerated list: splitLaw_psl, sameSuffixSplit_of_outside, split_nobar_psl); what ties them to the code is the per-run obligation that the real split_suffix answers like that model on every host of the public-suffix-list families and of the corpus (op lru_pairs_psl, a disagreement is a broken correspondence)",
     "reading: 'subdomain' = whole-label suffix of the dotted host between DNS names (an IPv4 literal / bracketed literal has no subdomains: hypothesis NamesOrEqual); 'extends / may add' presuppose that u has nothing later in the hierarchy host -> path -> query -> fragment; the forward law is demanded for u without userinfo (userinfo stems come last; the quantifier's universe has none); empty path stems aside = clean_trailing_path on both sides; suffix-aware converse compares hosts lower-cased; 'DNS name', 'IP literal' and 'public suffix' are read by the oracle independently of ural (narrow special-host definition and the publicsuffix.org algorithm scanned over the regenerated list, harness/props/C08.py), never from is_special_host / split_suffix",
     "reading of the clause 'the serialized LRU of u is a string prefix of that of v': for the string url_to_lru RETURNS (empty path stems kept) it is demanded — and proved — when v's path segments read as they are, empty ones included, extend u's (UnderRaw; implies Under); with 'empty path stems aside' carried over from the first clause it is stated — and proved — for serialize_lru(clean_trailing_path(lru_stems(.))), a string no ural function returns. For url_to_lru under plain Under it is FALSE (url_to_lru('http://a.com/') = 's:http|h:com|h:a|p:|' is no prefix of url_to_lru('http://a.com/x') = 's:http|h:com|h:a|p:x|': theorem raw_lru_not_prefix_witness) and not demanded",
 ]
@@ -142,9 +146,15 @@ UNPROVED = (
     "not by the answers of the implementation's split_suffix; outside of it the law is proved "
     "(stems_prefix_of_under_psl: equal hosts of any kind, or DNS names without leading / trailing dot and without '%') and demanded by the oracle. "
     "It is counted in the distribution as 'pairs-kf-region' and explored by the oracle only for the converse. "
-    "The suffix-aware converse (under_of_stems_prefix_sa) takes C08's re-join clause for both hosts as a hypothesis (SplitLaw; a theorem for "
-    "suffix_trie.py on DNS names: splitLaw_psl) and is false without it: http://a.co.uk. has the suffix-aware stems of http://a.co.uk "
-    "(converse_needs_splitLaw; the loss KF-C12-2; hosts with a trailing dot are outside the universe of the quantifier). "
+    "For a STRICT subdomain the suffix-aware forward theorems with suffix_trie.py inside keep the hypothesis 'DNS names' (dnsName: no leading / "
+    "trailing dot, no '%') although, since the fix FX-C12-EMPTYLABELS, the code and the abstract theorems (stems_prefix_of_under_partial / _sub, given "
+    "SameSuffixSplit) no longer need 'no trailing dot': what is missing is the list-side lemma 'a subdomain outside the public suffix has the parent's "
+    "suffix' (hostLen_subdomain, sameSuffixSplit_of_outside) for hostnames spelled with trailing dots — not proved; such pairs (http://a.co.uk. / "
+    "http://b.a.co.uk.) are corpus cases demanded by the oracle (same public suffix by the list) and a Lean example (converse_former_witness). "
+    "The suffix-aware converse (under_of_stems_prefix_sa) takes SplitLaw for both hosts as a hypothesis; with suffix_trie.py inside it is a theorem on "
+    "EVERY netloc of the grammar (splitLaw_psl, no host condition), so under_of_stems_prefix_psl / _psl_string have no hypothesis about the split: the "
+    "former counterexample http://a.co.uk. (which had the suffix-aware stems of http://a.co.uk: converse_needs_splitLaw, the loss KF-C12-2, repaired by "
+    "FX-C12-EMPTYLABELS) is now the Lean example converse_former_witness and a corpus batch. "
     "url_to_lru_prefix_iff (stem prefix <=> string prefix of url_to_lru) is for suffix_aware=False and any split_suffix; "
     "url_to_lru_prefix_iff_psl for both modes with suffix_trie.py inside"
 )
@@ -196,6 +206,17 @@ CORPUS = [
     {"u": "http://a.com/", "vs": ["http://a.com/x", "http://a.com//x", "http://a.com/", "http://a.com/?q=1", "http://www.a.com/"], "sa": False},
     {"u": "http://a.com/a/", "vs": ["http://a.com/a/b", "http://a.com/a//b", "http://a.com/a/?q#f", "http://a.com/a"], "sa": True},
     {"u": "http://a.co.uk", "vs": ["http://www.a.co.uk//x", "http://a.co.uk/", "http://a.co.uk//"], "sa": True},
+    # FX-C12-EMPTYLABELS (formerly KF-C12-2): hosts with trailing dots / a lone leading dot.  The root label is a stem of
+    # its own in both modes: http://a.co.uk. is no ancestor of http://a.co.uk/x any more (converse), it is one of
+    # http://a.co.uk./x and of http://b.a.co.uk. (forward: same public suffix by the list)
+    {"u": "http://a.co.uk.", "vs": ["http://a.co.uk/x", "http://a.co.uk./x", "http://b.a.co.uk.", "http://b.a.co.uk", "http://a.co.uk", "http://a.co.uk..", "http://.a.co.uk.", "http://A.CO.UK./x?q#f"], "sa": True},
+    {"u": "http://a.co.uk.", "vs": ["http://a.co.uk/x", "http://a.co.uk./x", "http://b.a.co.uk.", "http://b.a.co.uk", "http://a.co.uk", "http://a.co.uk..", "http://.a.co.uk.", "http://A.CO.UK./x?q#f"], "sa": False},
+    {"u": "http://a.co.uk", "vs": ["http://a.co.uk./x", "http://a.co.uk.", "http://b.a.co.uk.", "http://a.co.uk/x"], "sa": True},
+    {"u": "http://co.uk.", "vs": ["http://a.co.uk.", "http://co.uk./x", "http://co.uk/x", "http://a.co.uk", "http://co.uk.."], "sa": True},
+    {"u": "http://.co.uk", "vs": ["http://co.uk/x", "http://.co.uk/x", "http://a..co.uk", "http://a.co.uk", "http://.co.uk."], "sa": True},
+    {"u": "http://.co.uk", "vs": ["http://co.uk/x", "http://.co.uk/x", "http://a..co.uk", "http://a.co.uk", "http://.co.uk."], "sa": False},
+    {"u": "http://a.com..", "vs": ["http://a.com../x", "http://a.com./x", "http://b.a.com..", "http://a.com/x"], "sa": True},
+    {"u": "http://x.ck.", "vs": ["http://a.x.ck.", "http://x.ck./a", "http://x.ck/a", "http://.x.ck."], "sa": True},
     # IP pseudo-ancestors, localhost, bracketed
     {"u": "http://3.4", "vs": ["http://1.2.3.4", "http://2.3.4", "http://3.4/x"], "sa": False},
     {"u": "http://1.2.3.4", "vs": ["http://a.1.2.3.4", "http://1.2.3.4/x", "http://1.2.3.4:80"], "sa": False},
@@ -620,8 +641,11 @@ def split_law_ok(pr):
     A, split = pr[0], host_split(pr)
     if split is None:
         return True
+    # C08's clause (Props.C08.split_rejoin): the two parts re-join to the lower-cased host without its trailing dots —
+    # bare suffix, or first + "." + second (first may be empty: '.co.uk' -> ('', 'co.uk'))
     d, s = split
-    return (s if d == "" else d + "." + s) == B.ascii_lower(spec_host_port(A[1])[0])
+    walked = B.ascii_lower(spec_host_port(A[1])[0]).rstrip(".")
+    return (d == "" and s == walked) or d + "." + s == walked
 
 
 # --------------------------------------------------------------------------------------
@@ -707,7 +731,7 @@ def pair_verdict(case, v):
         # `host:` : is the empty port "the same port" as no port?  not decided by the statement
         return None
     if sa and not (split_law_ok(pu) and split_law_ok(pv)):
-        return "assumption (C08): split_suffix parts do not re-join to the lower-cased host: %r / %r" % (spu, spv)
+        return "assumption (C08): split_suffix parts do not re-join to the lower-cased host without its trailing dots: %r / %r" % (spu, spv)
     pre = is_prefix(cu, cv)
     hu, hv = spec_host_port(A[1])[0], spec_host_port(V[1])[0]
     # forward
